@@ -33,20 +33,27 @@ func genChain(r *rand.Rand) (text string, ordered bool) {
 			cmds = append(cmds, `rename code AS status`)
 			// later commands may still say "code": acceptable, the answer only has to be layout-independent
 		case 4:
-			cmds = append(cmds, `fillnull value=NA opt`)
+			// without a field list fillnull needs two passes over its input (rewind of the upstream commands)
+			cmds = append(cmds, []string{`fillnull value=NA opt`, `fillnull value=NA`, `fillnull value=0 rc`}[r.IntN(3)])
 		case 5:
 			cmds = append(cmds, `rex field=msg "(?<w1>\w+)"`)
 		case 6:
 			cmds = append(cmds, []string{`regex msg="time.*"`, `regex level!="info"`}[r.IntN(2)])
 		case 7:
-			cmds = append(cmds, []string{`dedup level`, `dedup level, code`, `dedup host`}[r.IntN(3)])
+			// incl. run-length forms: their state (the current run) must survive batch boundaries
+			cmds = append(cmds, []string{`dedup level`, `dedup level, code`, `dedup host`, `dedup consecutive=true level`, `dedup 2 consecutive=true level`,
+				`dedup consecutive=true code`, `dedup 2 level`, `dedup consecutive=true level, code`, `dedup 3 consecutive=true host`}[r.IntN(9)])
 		case 8:
 			cmds = append(cmds, fmt.Sprintf(`head %d`, 1+r.IntN(60)))
 		case 9:
 			cmds = append(cmds, fmt.Sprintf(`tail %d`, 1+r.IntN(60)))
 		case 10:
 			// a total order: the sort key is followed by the unique vid
-			cmds = append(cmds, fmt.Sprintf(`sort %s%s, +vid`, []string{"+", "-"}[r.IntN(2)], []string{"code", "lat", "level", "host"}[r.IntN(4)]))
+			lim := ""
+			if r.IntN(3) == 0 {
+				lim = fmt.Sprintf("%d ", 1+r.IntN(40)) // sort with a limit
+			}
+			cmds = append(cmds, fmt.Sprintf(`sort %s%s%s, +vid`, lim, []string{"+", "-"}[r.IntN(2)], []string{"code", "lat", "level", "host"}[r.IntN(4)]))
 		case 11:
 			cmds = append(cmds, []string{`top level`, `rare code`, `top limit=2 host`, `top code by level`}[r.IntN(4)])
 			ordered = false
@@ -151,6 +158,7 @@ func chunkOracle(prop string, res *RunResult) []Violation {
 	}
 	type ans struct {
 		err    string
+		errText string
 		recs   []string
 		groups map[string]map[string]float64
 		isAgg  bool
@@ -190,6 +198,7 @@ func chunkOracle(prop string, res *RunResult) []Violation {
 				a.err = "no answer"
 			case e.Err != "":
 				a.err = "error" // error texts carry query ids; only the fact is compared
+				a.errText = e.Err
 			default:
 				if q, err := decodeQ(e); err == nil {
 					if len(q.Measure) > 0 || len(q.MeasureFuncs) > 0 {
@@ -216,7 +225,7 @@ func chunkOracle(prop string, res *RunResult) []Violation {
 			a := row[w]
 			desc := fmt.Sprintf("world 0 (%s) vs world %d (%s)", describeWorld(worlds[0]), w, describeWorld(worlds[w]))
 			if (a.err != "") != (ref.err != "") {
-				vs = append(vs, Violation{Sig: prop + ":" + cls + ":fails-in-one-chunking", Msg: fmt.Sprintf("%q: %s: %q vs %q", texts[qi], desc, ref.err, a.err)})
+				vs = append(vs, Violation{Sig: prop + ":" + cls + ":fails-in-one-chunking" + errKind(ref.errText+a.errText), Msg: fmt.Sprintf("%q: %s: %q vs %q: %s", texts[qi], desc, ref.err, a.err, trimTo(ref.errText+a.errText, 400))})
 				continue
 			}
 			if a.err != "" {
@@ -327,4 +336,15 @@ func init() {
 		},
 		Components: stdComponents,
 	})
+}
+
+// errKind names the failure by a marker of its message (part of the signature, so that one recorded
+// failure class does not hide another one of the same command mix).
+func errKind(text string) string {
+	for _, m := range []string{"mergeEncodings: same encoding used", "index out of range", "nil pointer", "timed out"} {
+		if strings.Contains(text, m) {
+			return ":" + strings.ReplaceAll(strings.ReplaceAll(m, " ", "-"), ":", "")
+		}
+	}
+	return ""
 }
